@@ -36,6 +36,8 @@ struct Capture {
     updates: StdMutex<Vec<Update>>,
     hold: tokio::sync::watch::Sender<bool>,
     parked: std::sync::atomic::AtomicUsize,
+    /// `hold` switches itself on when this many updates have been taken.
+    hold_at: StdMutex<Option<usize>>,
 }
 
 impl Default for Capture {
@@ -44,6 +46,7 @@ impl Default for Capture {
             updates: Default::default(),
             hold: tokio::sync::watch::channel(false).0,
             parked: Default::default(),
+            hold_at: Default::default(),
         }
     }
 }
@@ -52,6 +55,15 @@ impl Default for Capture {
 impl DirectUpdate for Capture {
     async fn direct_update(&self, update: Update) {
         use std::sync::atomic::Ordering::SeqCst;
+        {
+            let mut hold_at = self.hold_at.lock().unwrap();
+            if hold_at
+                .is_some_and(|n| self.updates.lock().unwrap().len() >= n)
+            {
+                *hold_at = None;
+                self.hold.send_replace(true);
+            }
+        }
         let mut rx = self.hold.subscribe();
         if *rx.borrow_and_update() {
             self.parked.fetch_add(1, SeqCst);
@@ -396,5 +408,27 @@ impl StreamFixture {
     /// Number of updates currently waiting at the receiving end.
     pub fn parked(&self) -> usize {
         self.capture.parked.load(std::sync::atomic::Ordering::SeqCst)
+    }
+
+    /// Downstream back-pressure that starts by itself: the receiving end
+    /// takes `n` more updates and then holds (as `hold_updates(true)`) until
+    /// `hold_updates(false)`.
+    pub fn hold_updates_after(&self, n: usize) {
+        let taken = self.capture.updates.lock().unwrap().len();
+        *self.capture.hold_at.lock().unwrap() = Some(taken + n);
+    }
+
+    /// Is the receiving end holding (`hold_updates(true)`, or a
+    /// `hold_updates_after` that has come into effect)?
+    pub fn holding(&self) -> bool {
+        *self.capture.hold.borrow()
+    }
+
+    /// `bmp_tcp_in_connection_lost_count` of the unit: 1 once this
+    /// connection's handler has left its read loop.
+    pub fn connection_lost_count(&self) -> usize {
+        self.conn_metrics
+            .connection_lost_count
+            .load(std::sync::atomic::Ordering::SeqCst)
     }
 }
